@@ -51,6 +51,9 @@ def gen(seed, tier):
         fl = rng.choice(["asyncio", "trio"])
         pid = "x%d" % i
         payloads.append({"id": pid, "flavour": fl, "via": "execute", "steps": [["section", rng.randint(1, 6)], ["sleep", rng.choice([0.0, 0.05, 0.3])], ["section", rng.randint(1, 6)], ["return", "obj"]]})
+        if rng.random() < 0.35:
+            # not a bare coroutine function: a callable whose own (synchronous) code runs when it is called
+            payloads[-1]["callable"] = rng.choice(["sync-prologue", "sync-prologue", "lambda", "instance", "method"])
         if rng.random() < 0.5:
             dscript += [["sleep", rng.choice([0.0, 0.1, 0.3])], ["execute", pid]]
         else:
@@ -175,7 +178,7 @@ def check(h, reason):
     home = {fl: {c[1] for c in ctxs[fl]} for fl in ("asyncio", "trio")}
     for e in ev:
         pid_ = e.get("pid")
-        if pid_ in specs and specs[pid_]["flavour"] in ("asyncio", "trio") and e["kind"] in ("hb", "step", "cleanup-step", "finished", "destroyed", "cancelled", "blocking"):
+        if pid_ in specs and specs[pid_]["flavour"] in ("asyncio", "trio") and e["kind"] in ("hb", "step", "cleanup-step", "finished", "destroyed", "cancelled", "blocking", "payload-called"):
             fl_ = specs[pid_]["flavour"]
             if home[fl_] and e["sid"] not in home[fl_]:
                 V("C11/payload-code-on-foreign-thread/%s" % fl_, "%s payload %s executed '%s' on sim thread %s; %s payloads live on thread(s) %r" % (fl_, pid_, e["kind"], e["sid"], fl_, sorted(home[fl_])))
